@@ -8,6 +8,7 @@ package main
 import (
 	"encoding/binary"
 	"fmt"
+	"math/big"
 	"sort"
 	"strings"
 
@@ -115,6 +116,7 @@ type fval struct {
 	str       string // Name URI / Uri string / strategy name URI
 	malformed bool   // the field's encoding is damaged
 	lenient   bool   // unusual encoding a lenient decoder may read as the value `nat`
+	only      string // "module/verb": offered for that verb only, as a one-field departure (boundary families)
 	raw       []byte // complete TLV of the field when malformed or special
 	noName    bool   // Strategy TLV without a Name inside
 }
@@ -144,7 +146,7 @@ var domains = map[fieldID][]fval{
 	fCapacity:    {natv(0), natv(7), natv(65536), natv(1 << 63), natv(maxU64)},
 	fFlags:       {natv(0), natv(1), natv(2), natv(3), natv(4), natv(maxU64)},
 	fMask:        {natv(0), natv(1), natv(4), natv(7)},
-	fExpiration:  {natv(0), natv(1000), natv(1 << 63)},
+	fExpiration:  append([]fval{natv(0), natv(1000), natv(1 << 63)}, expirationBoundaries()...),
 	fPersistency: {natv(0), natv(1), natv(2), natv(7)},
 	// 64 = defn.MinMTU; 72 / 84 = the NDNLP header of a fragmenting face (26, 38 with incoming face
 	// indication) + a 32-byte PIT token (34) + a congestion mark (12): no payload byte left
@@ -404,8 +406,62 @@ func alternatives(vs verbSpec, f fieldID) []*fval {
 		if has && v.label == baseLabel {
 			continue
 		}
+		if v.only != "" && v.only != vs.module+"/"+vs.verb {
+			continue
+		}
 		out = append(out, &v)
 	}
+	return out
+}
+
+// pairAlternatives: what a two-field departure draws from (boundary families stay one-field).
+func pairAlternatives(vs verbSpec, f fieldID) []*fval {
+	var out []*fval
+	for _, v := range alternatives(vs, f) {
+		if v == nil || v.only == "" {
+			out = append(out, v)
+		}
+	}
+	return out
+}
+
+// expirationBoundaries: ExpirationPeriod is milliseconds and becomes a time.Duration (int64
+// nanoseconds) by a multiplication with 10^6 that wraps modulo 2^64. The value classes are
+// therefore: around the largest representable period (MaxInt64/10^6), around the largest uint64
+// quotient (MaxUint64/10^6), and for each of the first wrap points w_k = floor(k*2^64/10^6),
+// k = 1..3, the values just around it and those whose wrapped product lands in each further
+// quarter of the 64-bit range (w_k + q*2^62/10^6, q = 1..3).
+func expirationBoundaries() []fval {
+	const million = 1_000_000
+	var out []fval
+	seen := map[uint64]bool{0: true, 1000: true, 1 << 63: true}
+	add := func(v uint64, label string) {
+		if seen[v] {
+			return
+		}
+		seen[v] = true
+		out = append(out, fval{label: label, nat: v, only: "rib/register"})
+	}
+	maxI := uint64(1<<63-1) / million
+	add(maxI-1, "MaxInt64/1e6-1")
+	add(maxI, "MaxInt64/1e6")
+	add(maxI+1, "MaxInt64/1e6+1")
+	maxU := maxU64 / million
+	add(maxU-1, "MaxUint64/1e6-1")
+	add(maxU, "MaxUint64/1e6")
+	add(maxU+1, "MaxUint64/1e6+1")
+	quarter := uint64(1<<62) / million
+	two64 := new(big.Int).Lsh(big.NewInt(1), 64)
+	for k := int64(1); k <= 3; k++ {
+		w := new(big.Int).Div(new(big.Int).Mul(big.NewInt(k), two64), big.NewInt(million)).Uint64()
+		add(w-1, fmt.Sprintf("floor(%d*2^64/1e6)-1", k))
+		add(w, fmt.Sprintf("floor(%d*2^64/1e6)", k))
+		add(w+1, fmt.Sprintf("floor(%d*2^64/1e6)+1", k))
+		for q := uint64(1); q <= 3; q++ {
+			add(w+1+q*quarter, fmt.Sprintf("floor(%d*2^64/1e6)+1+%d*2^62/1e6", k, q))
+		}
+	}
+	add(maxU64, "2^64-1")
 	return out
 }
 
@@ -492,8 +548,8 @@ func buildAlphabet(localhopCfg bool, pairs bool) *alphabet {
 		for i := 0; i < len(vs.relevant); i++ {
 			for j := i + 1; j < len(vs.relevant); j++ {
 				f1, f2 := vs.relevant[i], vs.relevant[j]
-				for _, v1 := range alternatives(vs, f1) {
-					for _, v2 := range alternatives(vs, f2) {
+				for _, v1 := range pairAlternatives(vs, f1) {
+					for _, v2 := range pairAlternatives(vs, f2) {
 						c := vs.baseCmd()
 						setField(c, f1, v1)
 						setField(c, f2, v2)
